@@ -1000,6 +1000,8 @@ ATEN.update({
     "expand": expand, "reshape": reshape, "view": lambda E, t, *s: reshape(E, t, *s, is_view=True),
     "_unsafe_view": lambda E, t, *s: reshape(E, t, *s), "flatten": flatten, "cat": cat, "stack": stack,
     "split": split, "chunk": chunk, "clone": clone, "detach": detach, "contiguous": contiguous, "_to_copy": _to_copy,
+    "mul_": lambda E, t, v: inplace_binop(E, "Mult", t, None, v), "div_": lambda E, t, v: inplace_binop(E, "Div", t, None, v),
+    "add_": lambda E, t, v: inplace_binop(E, "Add", t, None, v), "sub_": lambda E, t, v: inplace_binop(E, "Sub", t, None, v),
     "to": _to_copy, "copy_": copy_, "matmul": matmul, "mm": mm, "bmm": bmm, "_int_mm": int_mm,
     "_weight_int8pack_mm": weight_int8pack_mm, "sum": tensor_sum,
     "view_as": lambda E, t, o: reshape(E, t, list(o.shape)),
